@@ -82,7 +82,33 @@ pub enum WAns {
 	Accept(usize),
 	Interrupted,
 	Zero,
-	Hard,
+	/// a hard error of the given kind (never `Interrupted`)
+	Hard(io::ErrorKind),
+}
+
+/// error kinds a scheduled sink can answer with: `(h KIND)`; plain `h` = other
+pub fn error_kind(name: &str) -> Option<io::ErrorKind> {
+	use io::ErrorKind::*;
+	Some(match name {
+		"other" => Other,
+		"wouldblock" => WouldBlock,
+		"timedout" => TimedOut,
+		"brokenpipe" => BrokenPipe,
+		"writezero" => WriteZero,
+		"unexpectedeof" => UnexpectedEof,
+		"permissiondenied" => PermissionDenied,
+		"connectionreset" => ConnectionReset,
+		"connectionaborted" => ConnectionAborted,
+		"notconnected" => NotConnected,
+		"invalidinput" => InvalidInput,
+		"invaliddata" => InvalidData,
+		"outofmemory" => OutOfMemory,
+		"unsupported" => Unsupported,
+		"alreadyexists" => AlreadyExists,
+		"notfound" => NotFound,
+		"addrinuse" => AddrInUse,
+		_ => return None,
+	})
 }
 
 /// A `Write` whose answers follow a schedule (the last answer repeats).
@@ -143,7 +169,7 @@ impl Write for ScheduledWriter {
 			}
 			WAns::Interrupted => Err(io::Error::new(io::ErrorKind::Interrupted, "verif: interrupted")),
 			WAns::Zero => Ok(0),
-			WAns::Hard => Err(io::Error::new(io::ErrorKind::Other, "verif: hard sink error")),
+			WAns::Hard(kind) => Err(io::Error::new(kind, "verif: hard sink error")),
 		}
 	}
 	fn write_vectored(&mut self, bufs: &[io::IoSlice<'_>]) -> io::Result<usize> {
@@ -171,7 +197,7 @@ impl Write for ScheduledWriter {
 			}
 			WAns::Interrupted => Err(io::Error::new(io::ErrorKind::Interrupted, "verif: interrupted")),
 			WAns::Zero => Ok(0),
-			WAns::Hard => Err(io::Error::new(io::ErrorKind::Other, "verif: hard sink error")),
+			WAns::Hard(kind) => Err(io::Error::new(kind, "verif: hard sink error")),
 		}
 	}
 	fn flush(&mut self) -> io::Result<()> {
